@@ -156,6 +156,36 @@ where
     | some _ => hd
     | none => Header.set hd sDate (httpDate (t1 / nsPerSec))
 
+/-- "never the replaced one": no write puts, under a key, a representation whose origin reply arrived
+    strictly EARLIER than the reply of the representation the key already holds (a late write-back of a
+    background revalidation over a response that was replaced meanwhile) -/
+def monC08Resurrect (h : Hist) : Option String :=
+  let recvOf := fun (m k : Nat) => h.evs.findSome? fun
+    | .call c => if c.n = m && c.k = k && c.outcome == "resp" then some c.t1 else none
+    | _ => none
+  let rec go (evs : List Ev) (held : List (Str × (Nat × Nat × Int))) : Option String :=
+    match evs with
+    | [] => none
+    | .call _ :: r => go r held
+    | .store s :: r =>
+      match s.op, s.result, s.val with
+      | "set", "ok", .ent en _ =>
+        match tokenOf en.resp.body with
+        | none => go r held
+        | some (m, k) =>
+          match recvOf m k with
+          | none => go r held
+          | some t =>
+            match alookup s.key held with
+            | some (m', k', t') =>
+              if (m', k') ≠ (m, k) && t < t' then
+                some s!"exchange {s.n} ({s.stream}): wrote the representation received in exchange {m} (at {t}) back under {shw s.key}, over the newer one received in exchange {m'} (at {t'})"
+              else go r (ainsert s.key (m, k, t) held)
+            | none => go r (ainsert s.key (m, k, t) held)
+      | "del", _, _ => go r (held.filter (·.1 ≠ s.key))
+      | _, _, _ => go r held
+  if !h.faults.isEmpty then none else go h.evs []
+
 /-! ### C09 -/
 def storedBy (h : Hist) (n : Nat) : Option Entry :=
   ["fg", "bg"].findSome? fun stream =>
@@ -239,14 +269,22 @@ def monC19 (h : Hist) : Option String :=
           | "get", "ok", .idx refs _ => if s.key = d.key then some (refs.map (·.id)) else none
           | _, _, _ => none).getD []
         (idxRefs.find? fun id => before.contains id && !(dels.any fun d' => d'.key = id)).map fun id =>
-          s!"exchange {rm.n}: invalidation deleted index {shw d.key} but left the referenced entry {shw id}" ]
+          s!"exchange {rm.n}: invalidation deleted index {shw d.key} but left the referenced entry {shw id}",
+    -- ... also when the write-back of a background revalidation arrives after the invalidation: once
+    -- everything has come to rest no entry is left whose resource has no index any more
+    (if h.cls == "swr-inval" then
+      match h.finalKeys with
+      | some ks => (ks.find? fun k => k.contains '#' && !ks.contains (k.takeWhile (· ≠ '#'))).map fun k =>
+          s!"at rest the store holds the entry {shw k} but no index for its resource: an invalidated key was written back"
+      | none => none
+     else none) ]
 
 def monitorFor2 (prop : String) : Hist → Option String :=
   match prop with
   | "C03" => monC03
   | "C04" => monC04
   | "C07" => monC07
-  | "C08" => monC08
+  | "C08" => fun h => first? [monC08 h, monC08Resurrect h]
   | "C09" => monC09
   | "C19" => monC19
   | p => monitorFor p
